@@ -41,7 +41,10 @@ def check_coord(ctx, out, rule="C01.coord"):
                 n += 1
                 samples.append("%s <- %s" % (ctx.where(b, s["span"]), "target" if tgt else ("source" if src else "?")))
                 if src and not tgt:
-                    out.viol(rule, "%s|%s|LineChange.line<-source-only" % (rule, b.id), ctx.where(b, s["span"]),
+                    # keyed by the construct, not by the function it currently lives in: a LineChange
+                    # built from an element of the deleted-lines queue, or directly from a hunk line
+                    via = "deleted-line-queue" if any(l[0] == "call" and "VecDeque" in l[1] for l in labs) else "direct"
+                    out.viol(rule, "%s|%s|LineChange.line<-source-only|%s" % (rule, (s.get("span") or {}).get("file") or b.id, via), ctx.where(b, s["span"]),
                              "a LineChange is recorded at an OLD-file line number (%s): block spans are in new-file coordinates, so after earlier insertions/deletions the change is attributed to the wrong lines" % util.origins_text({l for l in labs if any(f in l[2] for f in SRC_FIELDS)}, 3))
                 elif not tgt:
                     out.viol(rule, "%s|%s|LineChange.line<-unknown" % (rule, b.id), ctx.where(b, s["span"]),
@@ -64,6 +67,28 @@ def check_skipfile(ctx, out, rule="C01.skipfile"):
         ins = [(bi, t) for bi, t in b.calls() if callee_matches(t, r"HashMap::<K, V, S, A>::(insert|entry)$")
                and re.search(r"LineChange", " ".join(t.get("arg_tys") or []))]
         if not loops:
+            # pipeline shape: `patch_set.into_iter().filter(|f| !f.is_removed_file()).map(..).collect()`
+            for bi, t in b.calls():
+                if callee_matches(t, r"Iterator>?::collect$") and re.search(r"HashMap<std::path::PathBuf, std::vec::Vec<blockwatch::diff_parser::LineChange>", t.get("dest_ty") or ""):
+                    cands.append(b0.id)
+                    e = ctx.expr(b).operand(t["args"][0])
+                    calls = [c for c in walk(e) if c[0] == "call"]
+                    ok = any(re.search(r"unidiff::PatchSet as std::iter::IntoIterator>::into_iter$", c[1]) for c in calls)
+                    for c in calls:
+                        nm = c[1].split("::")[-1]
+                        if re.search(r"Iterator>?::filter$", c[1]):
+                            clo = [a for a in c[2] if a[0] == "agg" and a[1].startswith("closure:")]
+                            fb = ctx.facts.body(clo[0][1][8:]) if clo else None
+                            fe = ctx.expr(ctx.inl(fb, skip=ctx.domain_api, tag="domain", sugar=True)).local(0) if fb is not None else None
+                            if not (fe and fe[0] == "un" and fe[1] == "Not" and fe[2][0] == "call" and fe[2][1] == "unidiff::PatchedFile::is_removed_file"):
+                                ok = False
+                                out.viol(rule, "%s|extra-skip" % rule, ctx.where(b0, t["span"]),
+                                         "file sections of the diff are filtered by `%s`: only sections that delete the whole file (unidiff's `is_removed_file()`) may be left out" % (render(fe, 140) if fe else "?"))
+                        elif re.search(r"Iterator>?::(filter_map|flat_map|skip|take|step_by|skip_while|take_while|map_while)$", c[1]):
+                            ok = False
+                            out.viol(rule, "%s|extra-skip" % rule, ctx.where(b0, t["span"]), "file sections of the diff pass through `%s` before being collected" % nm)
+                    if ok:
+                        n += 1
             continue
         cands.append(b0.id)
         h, blocks, nb = loops[0]
@@ -109,17 +134,20 @@ def check_queue(ctx, out):
             if "VecDeque" in d:
                 qn += 1
                 nm = d.split("::")[-1]
+                if nm == "drain" and ((t.get("arg_tys") or ["", ""]) + [""])[1] == "std::ops::RangeFull":
+                    continue        # drains the whole queue front to back: FIFO order kept
                 if nm not in allowed:
                     bad.append((b, t, nm))
     for b, t, nm in bad:
         out.viol("C01.fifo", "C01.fifo|%s|%s" % (b.id, nm), ctx.where(b, t["span"]),
                  "the deleted-line queue is used through `%s`: removed and added lines of a hunk must pair first-with-first (push_back / pop_front / clear only)" % nm)
-    out.inst("C01.fifo", qn, 4, note="VecDeque call sites in the diff parser")
+    out.inst("C01.fifo", qn, 2, note="VecDeque call sites in the diff parser (push_back + pop_front at least)")
 
     # flush functions: crate-local fns whose region clears a VecDeque
     flushers = set()
     for b in diff_bodies(ctx):
-        if any(callee_matches(t, r"VecDeque::<T, A>::clear$") for bi, t in b.calls()):
+        if any(callee_matches(t, r"VecDeque::<T, A>::clear$") or (callee_matches(t, r"VecDeque::<T, A>::drain$") and ((t.get("arg_tys") or ["", ""]) + [""])[1] == "std::ops::RangeFull")
+               for bi, t in b.calls()):
             flushers.add(b.id)
     changed = True
     while changed:
@@ -428,9 +456,21 @@ def check_prefix(ctx, out, rule="C15.prefix"):
     n = 0
     REPEAT = r"<impl str>::(trim_start_matches|trim_matches|trim_end_matches|replace|replacen|trim_left_matches|split|rsplit|strip_suffix)$"
     for b in diff_bodies(ctx):
+        key_sites = []
         for bi, t in b.calls():
             if callee_matches(t, r"HashMap::<K, V, S, A>::insert$") and "diff_parser::LineChange" in (t.get("arg_tys") or [""])[0]:
-                labs = ctx.prov.read_operand(b, t["args"][1])
+                key_sites.append((t, ctx.prov.read_operand(b, t["args"][1])))
+            # or the pairs are collected: `.map(|f| (key(f), line_changes(f))).collect::<HashMap<_, _>>()`
+            if callee_matches(t, r"Iterator>?::collect$") and re.search(r"HashMap<std::path::PathBuf, std::vec::Vec<blockwatch::diff_parser::LineChange>", t.get("dest_ty") or ""):
+                e = ctx.expr(b).operand(t["args"][0])
+                maps = [c for c in walk(e) if c[0] == "call" and re.search(r"Iterator>?::map$", c[1])]
+                if maps:
+                    clo = [a for a in maps[0][2] if a[0] == "agg" and a[1].startswith("closure:")]
+                    cb = ctx.facts.body(clo[0][1][8:]) if clo else None
+                    if cb is not None:
+                        cv = ctx.inl(cb, skip=ctx.domain_api, tag="domain", sugar=True)
+                        key_sites.append((t, ctx.prov.read_local(cv, 0, ("0",))))
+        for t, labs in key_sites:
                 n += 1
                 if not P.has_path(labs, "target_file"):
                     out.viol(rule, "%s|not-target" % rule, ctx.where(b, t["span"]),
